@@ -41,3 +41,14 @@ impl RngCore for ThreadRng {
         Ok(())
     }
 }
+
+/// `rand::random()`: one value from the simulated thread-local generator
+pub fn random<T>() -> T
+where
+    distributions::Standard: distributions::Distribution<T>,
+{
+    use rand_real::Rng as _;
+    thread_rng().gen()
+}
+
+impl CryptoRng for ThreadRng {}
